@@ -750,4 +750,12 @@ theorem F14e_witness :
     matchesPatternOld [nm "sub", nm "a_gen.py"] (Form.anyFile (nm "a_gen.py")).render = true ∧
     matchesPattern [nm "sub", nm "xa_gen.py"] (Form.anyFile (nm "a_gen.py")).render = false := by decide
 
+/-- the repair of F14e only adds matches: whatever the old reading ignored is still ignored -/
+theorem repair_only_adds (p : Path) (pat : List Char) (h : matchesPatternOld p pat = true) : matchesPattern p pat = true := by
+  unfold matchesPatternOld at h
+  unfold matchesPattern
+  split
+  · simpa [*] using h
+  · simp_all
+
 end ThaiLintModel.C14
